@@ -265,7 +265,7 @@ mod real_run
                     DirPart::Table => { let _ = fs::remove_file(table_path()); },
                 },
                 Op::DamageState{..} => {},
-                Op::Restyle{..} => {},
+                Op::Restyle{..} | Op::PruneDirs | Op::MakeDirs => {},
                 Op::Build{ goal, .. } =>
                 {
                     let mut printer = RecPrinter::new();
@@ -338,6 +338,8 @@ pub fn run_differential(stats : &mut Stats, scenarios : u64, seed : u64) -> Vec<
         let s = mix64(seed ^ mix64(k + 0xd1ff));
         let mut rng = Rng::derive(s, 11);
         let mut g = GenCfg::base(false);
+        g.outside_leaves = false;   // "../x" would leave the scratch directory on a real file system
+        g.crowds = false;
         g.max_rules = rng.range(1, 5);
         g.max_ops = 6;
         g.min_ops = 3;
